@@ -176,3 +176,44 @@ Proof. intros. unfold q_tw_sq_rect, qce, q_sq_err, qphi_rect, qphip_rect, qg_rec
 Lemma tw_weight_one_expectile L U alpha f o : L <= f -> L <= o -> f <= U -> o <= U ->
   q_tw_expectile_rect L U alpha f o == q_asym_sq alpha f o.
 Proof. intros. unfold q_tw_expectile_rect, qce, q_asym_sq, qphi_rect, qphip_rect, qg_rect, Qltb. qcmpp; qsolve. Qed.
+
+Lemma tw_weight_one_huber L U v f o : 0 <= v -> L <= f -> L <= o -> f <= U -> o <= U ->
+  q_tw_huber_rect L U v f o == q_huber v f o.
+Proof. intros. unfold q_tw_huber_rect, qch, qclip, q_huber, qphi_rect, qphip_rect, qg_rect, Qltb.
+ destruct (Qlt_le_dec (f - o) 0) as [N|N];
+ [assert (EA : Qabs (f - o) == - (f - o)) by (apply Qabs_neg; lra) | assert (EA : Qabs (f - o) == f - o) by (apply Qabs_pos; lra)];
+ set (A := Qabs (f - o)) in *; clearbody A; qcmpp; qsolve. Qed.
+
+(* every rectangular threshold-weighted score is non-negative and vanishes at fcst = obs *)
+Lemma tw_rect_nonneg a b alpha v f o : a <= b -> 0 < alpha < 1 -> 0 <= v ->
+  (0 <= q_tw_sq_rect a b f o /\ 0 <= q_tw_abs_rect a b f o /\ 0 <= q_tw_quantile_rect a b alpha f o /\
+   0 <= q_tw_expectile_rect a b alpha f o /\ 0 <= q_tw_huber_rect a b v f o) /\
+  (f == o -> q_tw_sq_rect a b f o == 0 /\ q_tw_abs_rect a b f o == 0 /\ q_tw_quantile_rect a b alpha f o == 0 /\
+   q_tw_expectile_rect a b alpha f o == 0 /\ q_tw_huber_rect a b v f o == 0).
+Proof. intros Hab Ha Hv.
+ pose proof (qg_rect_nondecreasing a b Hab) as M. pose proof (qphip_rect_nondecreasing a b Hab) as M'.
+ pose proof (qphi_rect_subgradient a b Hab) as S. assert (Hh : 0 < 1 # 2 < 1) by (split; reflexivity).
+ unfold q_tw_sq_rect, q_tw_abs_rect, q_tw_quantile_rect, q_tw_expectile_rect, q_tw_huber_rect. split.
+ - pose proof (qce_nonneg _ _ (1 # 2) f o S Hh). pose proof (qcq_nonneg _ (1 # 2) f o M Hh). pose proof (qcq_nonneg _ alpha f o M Ha).
+   pose proof (qce_nonneg _ _ alpha f o S Ha). pose proof (qch_nonneg _ _ v f o S M' Hv). repeat split; lra.
+ - intro E. pose proof (qce_zero _ _ (1 # 2) f o S E). pose proof (qcq_zero _ (1 # 2) f o M E). pose proof (qcq_zero _ alpha f o M E).
+   pose proof (qce_zero _ _ alpha f o S E). pose proof (qch_zero _ _ v f o S Hv E). repeat split; lra. Qed.
+
+(* ---------------- soundness of replacing infinite end points by finite points beyond the data ---------------- *)
+(* the scores only see differences of g and Bregman differences of phi: an end point at or below min(f,o), resp. at or
+   above max(f,o), can be moved freely *)
+Lemma rect_lower_irrelevant a1 a2 b alpha v f o : a1 <= f -> a1 <= o -> a2 <= f -> a2 <= o -> 0 <= v ->
+  q_tw_sq_rect a1 b f o == q_tw_sq_rect a2 b f o /\ q_tw_abs_rect a1 b f o == q_tw_abs_rect a2 b f o /\
+  q_tw_quantile_rect a1 b alpha f o == q_tw_quantile_rect a2 b alpha f o /\
+  q_tw_expectile_rect a1 b alpha f o == q_tw_expectile_rect a2 b alpha f o /\
+  q_tw_huber_rect a1 b v f o == q_tw_huber_rect a2 b v f o.
+Proof. intros. unfold q_tw_sq_rect, q_tw_abs_rect, q_tw_quantile_rect, q_tw_expectile_rect, q_tw_huber_rect, qcq, qce, qch, qclip,
+   qphi_rect, qphip_rect, qg_rect, Qltb. repeat split; qcmpp; qsolve. Qed.
+
+Lemma rect_upper_irrelevant a b1 b2 alpha v f o : f <= b1 -> o <= b1 -> f <= b2 -> o <= b2 -> 0 <= v ->
+  q_tw_sq_rect a b1 f o == q_tw_sq_rect a b2 f o /\ q_tw_abs_rect a b1 f o == q_tw_abs_rect a b2 f o /\
+  q_tw_quantile_rect a b1 alpha f o == q_tw_quantile_rect a b2 alpha f o /\
+  q_tw_expectile_rect a b1 alpha f o == q_tw_expectile_rect a b2 alpha f o /\
+  q_tw_huber_rect a b1 v f o == q_tw_huber_rect a b2 v f o.
+Proof. intros. unfold q_tw_sq_rect, q_tw_abs_rect, q_tw_quantile_rect, q_tw_expectile_rect, q_tw_huber_rect, qcq, qce, qch, qclip,
+   qphi_rect, qphip_rect, qg_rect, Qltb. repeat split; qcmpp; qsolve. Qed.
